@@ -127,6 +127,12 @@ type MuxH struct {
 	// as an application that keeps its MuxerData around does; whatever a call leaves in them is what
 	// the next call gets
 	afs map[string]*astits.PacketAdaptationField
+	// ShareAF: ONE adaptation field struct for all WriteData calls - the caller fills in the fields of the field it
+	// wants before each call and leaves the length bookkeeping (Length, StuffingLength) to the library, as an
+	// application does that keeps one MuxerData and edits it
+	ShareAF        bool
+	afShared       *astits.PacketAdaptationField
+	afSharedFailed bool
 }
 
 func NewMuxH(period int) *MuxH {
@@ -433,7 +439,20 @@ func (h *MuxH) Do(op MOp, seed int64) *MCall {
 		}
 		c.Hdr = MakeHdr(op.Hdr, op.SID, idx)
 		c.AF = MakeAF(op.AF, idx)
-		if !h.Tag && c.AF != nil {
+		if h.ShareAF && c.AF != nil {
+			if h.afShared == nil {
+				h.afShared = &astits.PacketAdaptationField{}
+			}
+			keepLen, keepStuff := h.afShared.Length, h.afShared.StuffingLength
+			if h.afSharedFailed {
+				// after a call that failed the caller sets its struct up again from scratch (what a failed call leaves in
+				// it is not covered by any property); after a call that succeeded it relies on the library's bookkeeping
+				keepLen, keepStuff = 0, 0
+			}
+			*h.afShared = *c.AF
+			h.afShared.Length, h.afShared.StuffingLength = keepLen, keepStuff
+			c.AF = h.afShared
+		} else if !h.Tag && c.AF != nil {
 			if h.afs == nil {
 				h.afs = map[string]*astits.PacketAdaptationField{}
 			}
@@ -447,6 +466,9 @@ func (h *MuxH) Do(op MOp, seed int64) *MCall {
 		c.N, c.Err = h.M.WriteData(&astits.MuxerData{PID: pid, AdaptationField: c.AF, PES: &astits.PESData{Data: in, Header: c.Hdr}})
 		if !intact() {
 			c.Err = errors.Join(c.Err, errPayloadMutated)
+		}
+		if h.ShareAF && c.AF != nil {
+			h.afSharedFailed = c.Err != nil
 		}
 		// the caller's view of what it asked for (AF as given, before the Muxer touched it)
 		c.AF = MakeAF(op.AF, idx)
